@@ -8,7 +8,7 @@
 //                "dir":hex,"filename":hex,"pkg":hex,"structname":hex,"schema":hex}, ...]
 // stdout: JSON [{"k":"ok","v":[dir,filename,pkgname,structname,schema] (hex),"ms":n}
 //               | {"k":"infinite"} | {"k":"parse"} | {"k":"exec"} | {"k":"other","m":..}
-//               | {"k":"panic","m":..}, ...]
+//               | {"k":"panic","m":..}, ...]     each with "ms" (wall) and "cpu_ms"
 package main
 
 import (
@@ -21,6 +21,7 @@ import (
 	"io"
 	"os"
 	"strings"
+	"syscall"
 	"time"
 
 	"github.com/rs/zerolog"
@@ -49,6 +50,8 @@ type Out struct {
 	V  []string `json:"v,omitempty"`
 	M  string   `json:"m,omitempty"`
 	Ms int64    `json:"ms"`
+	// CPU time of the call (user+system, whole process), robust against a loaded machine
+	CPUMs int64 `json:"cpu_ms"`
 }
 
 func unhex(s string) string {
@@ -61,13 +64,23 @@ func unhex(s string) string {
 func hx(s string) string { return hex.EncodeToString([]byte(s)) }
 func p(s string) *string { return &s }
 
+func cpuMs() int64 {
+	var ru syscall.Rusage
+	if err := syscall.Getrusage(syscall.RUSAGE_SELF, &ru); err != nil {
+		return 0
+	}
+	return (ru.Utime.Sec+ru.Stime.Sec)*1000 + int64(ru.Utime.Usec+ru.Stime.Usec)/1000
+}
+
 func runCase(c Case) (out Out) {
 	t0 := time.Now()
+	c0 := cpuMs()
 	defer func() {
 		if r := recover(); r != nil {
 			out = Out{K: "panic", M: fmt.Sprint(r)}
 		}
 		out.Ms = time.Since(t0).Milliseconds()
+		out.CPUMs = cpuMs() - c0
 	}()
 	if err := os.Chdir(c.Cwd); err != nil {
 		return Out{K: "other", M: "chdir: " + err.Error()}
